@@ -20,6 +20,15 @@ static int cmp_elem(const void *a, const void *b) { g_cmps.push_back(where(a)); 
 // bsearch comparator: first argument is the key object (an int), second an array element
 static int cmp_key(const void *k, const void *e) { g_cmps.push_back(where(k)); g_cmps.push_back(where(e));
     int x, y; if (k == g_key) x = *(const int *)k / g_div; else x = *(const unsigned char *)k / g_div; if (e == g_key) y = *(const int *)e / g_div; else y = *(const unsigned char *)e / g_div; return (x > y) - (x < y); }
+// re-entrant use ("QsortN" / "BsearchN"): every third comparison of the outer call sorts and searches another small array through the
+// same library functions (a comparator that normalises its operands, a lookup inside a comparison); the last inner sort is logged as an
+// event of its own
+static const size_t IN_N = 9, IN_SZ = 4; static unsigned char in_blk[IN_N * IN_SZ]; static const unsigned char in_keys[IN_N] = {5, 3, 9, 3, 1, 8, 5, 0, 7}; static int g_nestc = 0; static bool g_nest = false, g_inner = false;
+static int cmp_plain(const void *a, const void *b) { int x = *(const unsigned char *)a, y = *(const unsigned char *)b; return (x > y) - (x < y); }
+static void fill(unsigned char *el, size_t size, int key, int id);
+static void inner_sort() { for (size_t i = 0; i < IN_N; ++i) fill(in_blk + i * IN_SZ, IN_SZ, in_keys[i], (int)i); igv_qsort(in_blk, IN_N, IN_SZ, cmp_plain); unsigned char k = 8; igv_bsearch(&k, in_blk, IN_N, IN_SZ, cmp_plain); g_inner = true; }
+static int cmp_elem_n(const void *a, const void *b) { int r = cmp_elem(a, b); if (g_nest && ++g_nestc % 3 == 0) inner_sort(); return r; }
+static int cmp_key_n(const void *k, const void *e) { int r = cmp_key(k, e); if (g_nest && ++g_nestc % 3 == 0) inner_sort(); return r; }
 static void fill(unsigned char *el, size_t size, int key, int id) { el[0] = key; for (size_t j = 1; j < size; ++j) el[j] = j == 1 ? (id & 255) : j == 2 ? (id >> 8) : (unsigned char)(id * 7 + j); }
 static int id_of(const unsigned char *el, size_t size) { return size >= 3 ? el[1] | (el[2] << 8) : size == 2 ? el[1] : -1; }
 static bool intact(const unsigned char *el, size_t size) { int id = id_of(el, size); for (size_t j = 3; j < size; ++j) if (el[j] != (unsigned char)(id * 7 + j)) return false; return true; }
@@ -33,19 +42,23 @@ int main(int argc, char **argv) {
             else if (fn == "atol") { v = igv_atol(s); end = s; } else if (fn == "atoi") { v = (unsigned)igv_atoi(s); w = 4; end = s; }
             else { fprintf(stderr, "bad fn\n"); exit(3); }
             Ev e("Strto"); e.str("fn", fn.c_str()).bytes("text", tx.data(), tx.size()).i("base", base).le("val", v, w).i("endoff", (long)(end - s)); e.end(); free(s); return; }
-        if (t[0] == "Qsort" || t[0] == "Bsearch") {   // Qsort size div keys      Bsearch size div keys key
+        if (t[0] == "Qsort" || t[0] == "Bsearch" || t[0] == "QsortN" || t[0] == "BsearchN") {   // Qsort size div keys      Bsearch size div keys key
             size_t size = num(t[1]); g_div = num(t[2]); auto keys = blist(t[3]); size_t n = keys.size();
             unsigned char *blk = (unsigned char *)malloc(n * size ? n * size : 1); g_base = blk; g_n = n; g_size = size; g_cmps.clear();
             for (size_t i = 0; i < n; ++i) fill(blk + i * size, size, keys[i], (int)i);
-            if (t[0] == "Qsort") {
-                g_key = 0; igv_qsort(blk, n, size, cmp_elem);
+            g_nest = t[0] == "QsortN" || t[0] == "BsearchN"; g_nestc = 0; g_inner = false;
+            if (t[0] == "Qsort" || t[0] == "QsortN") {
+                g_key = 0; igv_qsort(blk, n, size, g_nest ? cmp_elem_n : cmp_elem);
                 std::vector<long long> ak, ai, ok; for (size_t i = 0; i < n; ++i) { ak.push_back(blk[i * size]); ai.push_back(id_of(blk + i * size, size)); ok.push_back(intact(blk + i * size, size) ? 1 : 0); }
-                Ev e("Qsort"); e.i("size", size).i("div", g_div).bytes("keys", keys.data(), n).ints("akeys", ak).ints("aids", ai).ints("intact", ok).i("ncmp", g_cmps.size() / 2); e.end();
+                Ev e("Qsort"); e.i("size", size).i("div", g_div).bytes("keys", keys.data(), n).ints("akeys", ak).ints("aids", ai).ints("intact", ok).i("ncmp", g_cmps.size() / 2).i("nested", g_nest ? 1 : 0); e.end();
             } else {
-                int *key = (int *)malloc(sizeof(int)); *key = num(t[4]); g_key = key; void *r = igv_bsearch(key, blk, n, size, cmp_key);
-                Ev e("Bsearch"); e.i("size", size).i("div", g_div).bytes("keys", keys.data(), n).i("key", *key).i("ret", r ? where(r) : -1).ints("cmps", g_cmps); e.end(); free(key);
+                int *key = (int *)malloc(sizeof(int)); *key = num(t[4]); g_key = key; void *r = igv_bsearch(key, blk, n, size, g_nest ? cmp_key_n : cmp_key);
+                Ev e("Bsearch"); e.i("size", size).i("div", g_div).bytes("keys", keys.data(), n).i("key", *key).i("ret", r ? where(r) : -1).ints("cmps", g_cmps).i("nested", g_nest ? 1 : 0); e.end(); free(key);
             }
-            free(blk); return; }
+            if (g_inner) {   // the last inner sort, judged like any other
+                std::vector<long long> ak, ai, ok; for (size_t i = 0; i < IN_N; ++i) { ak.push_back(in_blk[i * IN_SZ]); ai.push_back(id_of(in_blk + i * IN_SZ, IN_SZ)); ok.push_back(intact(in_blk + i * IN_SZ, IN_SZ) ? 1 : 0); }
+                Ev e("Qsort"); e.i("size", (long)IN_SZ).i("div", 1).bytes("keys", in_keys, IN_N).ints("akeys", ak).ints("aids", ai).ints("intact", ok).i("ncmp", 0).i("inner", 1); e.end(); }
+            g_nest = false; free(blk); return; }
         fprintf(stderr, "bad op\n"); exit(3);
     });
 }
